@@ -328,7 +328,7 @@ def rule_regex(ctx, prop):
                 cl = prog.fn("stylua_lib", callee(local_calls[0][1]))
         if rep.anchor(cl is not None, "replacement closure of format_token (third argument of replace_all)", cfg):
             try:
-                res = Enumerator(cl, summaries=False).run()
+                res = run_with_argvals(cl, None, r"From<&str>>::from$", summaries=False)
             except TooManyPaths:
                 res = []
                 rep.anchor(False, "replacement closure: too many paths", cfg)
@@ -369,6 +369,11 @@ def rule_regex(ctx, prop):
                     c = callee(t)
                     if c.endswith("From<&str>>::from") and is_const(t["args"][0]):
                         out = ("lit", t["args"][0].get("s"))
+                    elif c.endswith("From<&str>>::from"):
+                        # the literal came out of a `match quote { "'" => (.., "'", "\\'"), .. }` tuple: its value on this path
+                        av = [hv for hk, hv in st.hist if hk == f"argval:{v0[1]}"]
+                        if av and av[-1] and av[-1][0] and av[-1][0][0] == "constx" and str(av[-1][0][1]).startswith("s:"):
+                            out = ("lit", av[-1][0][1][2:])
                     elif c.endswith("to_owned"):
                         out = ("text",)
                     elif c.endswith("must_use") or c.endswith("fmt::format"):
@@ -528,7 +533,8 @@ def rule_regex(ctx, prop):
                         okl = _newline_chain(ft, ops["literal"])
                     else:
                         okq = "formatters::general::get_quote_to_use" in prov_calls(provenance(ft, q, through=None))
-                        calls = prov_calls(provenance(ft, ops["literal"]))
+                        calls = prov_calls(provenance(ft, ops["literal"], through=re.compile(
+                            PROV_THROUGH.pattern + r"|Cow::<.*>::into_owned$|Cow<.*>::into_owned$|::into_owned$")))
                         okl = any(c.endswith("Regex::replace_all") for c in calls)
                     ok = okd and okq and bool(okl)
                     rep.inst(f"{ft.key} StringLiteral[{'Brackets' if brackets else 'quoted'}] fields", None, cfg, ok=ok)
